@@ -154,11 +154,11 @@ fn aln_sets(scale: u8) -> Vec<AlnSet> {
     }
     v.push(AlnSet { name: "header-only-3refs", refs: 3, ref_len: (500, 900), spec: spec(0, 0, (20, 40), Tags::None, 0, 0), flush_every: 0 });
     v.push(AlnSet { name: "small-3refs-14recs", refs: 3, ref_len: (600, 1200), spec: spec(12, 2, (20, 60), Tags::All, 2, 1), flush_every: 0 });
-    v.push(AlnSet { name: "multiblock-3refs-64recs", refs: 3, ref_len: (1500, 3000), spec: spec(60, 4, (30, 100), Tags::All, 2, 2), flush_every: 7 });
-    v.push(AlnSet { name: "natural-2refs-420recs", refs: 2, ref_len: (6000, 9000), spec: spec(410, 10, (80, 150), Tags::All, 3, 1), flush_every: 0 });
+    v.push(AlnSet { name: "multiblock-3refs-64recs", refs: 3, ref_len: (40000, 120000), spec: spec(60, 4, (30, 100), Tags::All, 2, 2), flush_every: 7 });
+    v.push(AlnSet { name: "natural-2refs-300recs", refs: 2, ref_len: (100000, 300000), spec: spec(292, 8, (80, 150), Tags::All, 3, 1), flush_every: 0 });
     if scale >= 2 {
         v.push(AlnSet { name: "noheader-refs-only-1ref-30recs", refs: 1, ref_len: (2000, 2500), spec: spec(30, 0, (20, 50), Tags::One, 0, 0), flush_every: 1 });
-        v.push(AlnSet { name: "large-4refs-1500recs", refs: 4, ref_len: (9000, 20000), spec: spec(1480, 20, (50, 150), Tags::All, 4, 3), flush_every: 0 });
+        v.push(AlnSet { name: "large-4refs-1500recs", refs: 4, ref_len: (300000, 2000000), spec: spec(1480, 20, (50, 150), Tags::All, 4, 3), flush_every: 0 });
         v.push(AlnSet { name: "manyblocks-2refs-300recs", refs: 2, ref_len: (5000, 6000), spec: spec(295, 5, (30, 80), Tags::All, 1, 0), flush_every: 3 });
     }
     v
@@ -181,10 +181,10 @@ fn var_sets(scale: u8) -> Vec<VarSet> {
     v.push(VarSet { name: "header-only-2contigs", refs: 2, ref_len: (500, 900), spec: VcfSpec { records: 0, samples: 1, symbolic: false }, flush_every: 0 });
     v.push(VarSet { name: "small-2contigs-12recs-2samples", refs: 2, ref_len: (800, 1500), spec: VcfSpec { records: 12, samples: 2, symbolic: true }, flush_every: 0 });
     v.push(VarSet { name: "nosamples-3contigs-25recs", refs: 3, ref_len: (800, 1500), spec: VcfSpec { records: 25, samples: 0, symbolic: true }, flush_every: 0 });
-    v.push(VarSet { name: "multiblock-3contigs-90recs-3samples", refs: 3, ref_len: (3000, 6000), spec: VcfSpec { records: 90, samples: 3, symbolic: true }, flush_every: 8 });
-    v.push(VarSet { name: "natural-2contigs-900recs-4samples", refs: 2, ref_len: (20000, 30000), spec: VcfSpec { records: 900, samples: 4, symbolic: true }, flush_every: 0 });
+    v.push(VarSet { name: "multiblock-3contigs-90recs-3samples", refs: 3, ref_len: (40000, 120000), spec: VcfSpec { records: 90, samples: 3, symbolic: true }, flush_every: 8 });
+    v.push(VarSet { name: "natural-2contigs-520recs-4samples", refs: 2, ref_len: (200000, 400000), spec: VcfSpec { records: 520, samples: 4, symbolic: true }, flush_every: 0 });
     if scale >= 2 {
-        v.push(VarSet { name: "large-4contigs-3000recs-6samples", refs: 4, ref_len: (40000, 60000), spec: VcfSpec { records: 3000, samples: 6, symbolic: true }, flush_every: 0 });
+        v.push(VarSet { name: "large-4contigs-3000recs-6samples", refs: 4, ref_len: (300000, 2000000), spec: VcfSpec { records: 3000, samples: 6, symbolic: true }, flush_every: 0 });
         v.push(VarSet { name: "manyblocks-1contig-200recs-1sample", refs: 1, ref_len: (9000, 10000), spec: VcfSpec { records: 200, samples: 1, symbolic: false }, flush_every: 2 });
     }
     v
@@ -637,10 +637,10 @@ fn build_text(b: &mut Builder, seed: u64, scale: u8) {
         fq.push(("small-6reads", 6, (1, 80), "\n", false));
         fq.push(("many-300reads", 300, (30, 150), "\n", false));
         fq.push(("handwritten-plus-line-repeats-name", 8, (20, 60), "\n", true));
+        fq.push(("handwritten-crlf", 5, (10, 30), "\r\n", false));
     }
     if scale >= 2 {
         fq.push(("large-3000reads", 3000, (50, 250), "\n", false));
-        fq.push(("handwritten-crlf", 5, (10, 30), "\r\n", false));
     }
     for (name, n, len, eol, plus) in fq {
         let bytes = g::fastq_text(&mut rng, n, len.0, len.1, eol, plus);
@@ -780,6 +780,16 @@ pub fn known_problems() -> Vec<KnownProblem> {
                 what: "bcf writer output for GT `0/1/1` next to `0/0` (+ a second FORMAT key) is not decodable: read_record_buf -> InvalidData(invalid key); lazy record: samples() accessors fail",
             });
         }
+    }
+
+    // 2c. BCF: an Integer-array FORMAT key (Number=G / R) that is missing in every sample.
+    let vcf = b"##fileformat=VCFv4.3\n##contig=<ID=sq0,length=100>\n##FORMAT=<ID=GT,Number=1,Type=String,Description=\"Genotype\">\n##FORMAT=<ID=PL,Number=G,Type=Integer,Description=\"Likelihoods\">\n#CHROM\tPOS\tID\tREF\tALT\tQUAL\tFILTER\tINFO\tFORMAT\tsample0\tsample1\nsq0\t5\t.\tA\tC\t.\t.\t.\tGT:PL\t0/1:.\t1/1:.\n";
+    if let Some(item) = written(Kind::BcfRaw, "known/bcfraw-integer-array-series-missing-in-every-sample", vcf) {
+        v.push(KnownProblem {
+            item,
+            variant: crate::Variant::Eager,
+            what: "bcf writer output for `GT:PL 0/1:. 1/1:.` (PL missing in every sample) is not decodable: read_record_buf -> InvalidData(invalid values); lazy record: samples accessors fail",
+        });
     }
 
     // 3. CRAI with two records: `crai::io::Reader::read_index` never clears its line buffer, so the second line
